@@ -184,192 +184,196 @@ def run(index, rep, tier):
         classes[cq] = (ci, U.ClassUnits(ci, methods))
 
     # ---- R14.1
-    for cq, (ci, cu) in classes.items():
-        tabs = {f: u for f, u in cu.fields.items() if u in (U.L, U.S, U.MIX)}
-        rep.floor("R14.1", "unit-carrying fields of %s" % ci.name, 4, len(tabs))
-        for f, u in sorted(tabs.items()):
-            fi = index.function(cq + ".compile_from_tree")
-            rep.check(u != U.MIX, "R14.1", fi.qualname, "field self.%s receives both lengths and step counts" % f, fn_where(fi), "self.%s holds %s only" % (f, U._nm(u)),
-                      "%s stores both path lengths and step counts into self.%s: the table no longer has a single meaning" % (ci.name, f))
-        for fi, node, txt in cu.mixed:
-            rep.check(False, "R14.1", fi.qualname, "mixed units: " + norm(node)[:70], fn_where(fi, node), "", "%s: %s: a step count (or constant) has been used where an edge length belongs, or the other way round" % (fi.qualname, txt))
-        n_ok = 0
-        for m in (index.function(cq + "." + n) for n in ("compile_from_tree",)):
-            n_ok += 1
-            rep.ob("R14.1", fn_where(m), "%s.%s: %d locals typed, no sum mixes lengths with counts" % (ci.name, m.name, len(cu.envs.get(m.qualname, {}))), True)
-        # accessors
-        for acc, want in (("patristic_distance", U.L), ("path_edge_count", U.S)):
-            fi = index.function(cq + "." + acc)
-            env = cu.envs.get(fi.qualname, {})
-            rets = [r for r in walk_no_nested(fi.node) if isinstance(r, ast.Return) and r.value is not None and not isinstance(r.value, ast.Constant)]
-            got = set()
-            for r in rets:
-                v = r.value
-                if isinstance(v, ast.BinOp) and isinstance(v.op, (ast.Div, ast.FloorDiv)):
-                    a, b = cu.unit(v.left, env), cu.unit(v.right, env)
-                    got.add(a)
-                    rep.check(b == want, "R14.1", fi.qualname, "normalised by a %s quantity: %s" % (U._nm(b), norm(v)[:60]), fn_where(fi, r), "%s normalises a %s by a %s" % (acc, U._nm(a), U._nm(b)),
-                              "%s.%s divides by `%s`, a %s quantity, where the %s total belongs: the normalised value is not a proportion of the tree" % (ci.name, acc, norm(v.right), U._nm(b), U._nm(want)))
-                else:
-                    got.add(cu.unit(v, env))
-            rep.check(got == {want}, "R14.1", fi.qualname, "%s returns %s" % (acc, sorted(map(U._nm, got))), fn_where(fi), "%s returns a %s from the %s table" % (acc, U._nm(want), U._nm(want)),
-                      "%s.%s returns a %s: it reads the wrong table (path lengths and step counts are kept in separate tables)" % (ci.name, acc, "/".join(sorted(map(U._nm, got)))))
-        # the weighted switch
-        g = index.function(cq + "._get_distance_matrix_and_normalization_factor")
-        flag = g.params[1] if len(g.params) > 1 else None
-        sw = [i for i in g.node.body if isinstance(i, ast.If) and norm(i.test) in (flag, "not " + flag)]
-        if len(sw) != 1:
-            raise AnalysisError("R14.1: %s: weighted/unweighted switch not recognised" % g.qualname)
-        tb, fb = (sw[0].body, sw[0].orelse) if norm(sw[0].test) == flag else (sw[0].orelse, sw[0].body)
-        for branch, want, what in ((tb, U.L, "weighted"), (fb, U.S, "unweighted")):
-            us = set()
-            for n in branch:
-                for a in ast.walk(n):
-                    if isinstance(a, ast.Assign):
-                        u = cu.unit(a.value, {})
-                        if u is not None:
-                            us.add(u)
-            rep.check(us == {want}, "R14.1", g.qualname, "%s branch selects %s" % (what, sorted(map(U._nm, us))), fn_where(g, branch[0] if branch else g.node), "%s branch selects the %s table and total" % (what, U._nm(want)),
-                      "%s: the %s branch selects %s quantities (table / normalisation factor): weighted distances must come from the length table and be normalised by the tree length, unweighted ones from the step table and the edge count" % (g.qualname, what, "/".join(sorted(map(U._nm, us))) or "no"))
-        d = index.function(cq + ".distance")
-        dflag = [p for p in d.params if "weighted" in p]
-        sw = [i for i in d.node.body if isinstance(i, ast.If) and dflag and norm(i.test) in (dflag[0], "not " + dflag[0])]
-        if len(sw) != 1:
-            raise AnalysisError("R14.1: %s: weighted/unweighted dispatch not recognised" % d.qualname)
-        tb, fb = (sw[0].body, sw[0].orelse) if norm(sw[0].test) == dflag[0] else (sw[0].orelse, sw[0].body)
-        tc = {call_name(c) for s in tb for c in ast.walk(s) if isinstance(c, ast.Call)}
-        fc = {call_name(c) for s in fb for c in ast.walk(s) if isinstance(c, ast.Call)}
-        rep.check("patristic_distance" in tc and "path_edge_count" in fc and "path_edge_count" not in tc and "patristic_distance" not in fc, "R14.1", d.qualname, "dispatch weighted->%s unweighted->%s" % (sorted(tc), sorted(fc)), fn_where(d, sw[0]),
-                  "distance(): weighted -> patristic_distance, unweighted -> path_edge_count", "%s dispatches weighted -> %s and unweighted -> %s" % (d.qualname, sorted(tc), sorted(fc)))
+    with rep.section("R14.1"):
+        for cq, (ci, cu) in classes.items():
+            tabs = {f: u for f, u in cu.fields.items() if u in (U.L, U.S, U.MIX)}
+            rep.floor("R14.1", "unit-carrying fields of %s" % ci.name, 4, len(tabs))
+            for f, u in sorted(tabs.items()):
+                fi = index.function(cq + ".compile_from_tree")
+                rep.check(u != U.MIX, "R14.1", fi.qualname, "field self.%s receives both lengths and step counts" % f, fn_where(fi), "self.%s holds %s only" % (f, U._nm(u)),
+                          "%s stores both path lengths and step counts into self.%s: the table no longer has a single meaning" % (ci.name, f))
+            for fi, node, txt in cu.mixed:
+                rep.check(False, "R14.1", fi.qualname, "mixed units: " + norm(node)[:70], fn_where(fi, node), "", "%s: %s: a step count (or constant) has been used where an edge length belongs, or the other way round" % (fi.qualname, txt))
+            n_ok = 0
+            for m in (index.function(cq + "." + n) for n in ("compile_from_tree",)):
+                n_ok += 1
+                rep.ob("R14.1", fn_where(m), "%s.%s: %d locals typed, no sum mixes lengths with counts" % (ci.name, m.name, len(cu.envs.get(m.qualname, {}))), True)
+            # accessors
+            for acc, want in (("patristic_distance", U.L), ("path_edge_count", U.S)):
+                fi = index.function(cq + "." + acc)
+                env = cu.envs.get(fi.qualname, {})
+                rets = [r for r in walk_no_nested(fi.node) if isinstance(r, ast.Return) and r.value is not None and not isinstance(r.value, ast.Constant)]
+                got = set()
+                for r in rets:
+                    v = r.value
+                    if isinstance(v, ast.BinOp) and isinstance(v.op, (ast.Div, ast.FloorDiv)):
+                        a, b = cu.unit(v.left, env), cu.unit(v.right, env)
+                        got.add(a)
+                        rep.check(b == want, "R14.1", fi.qualname, "normalised by a %s quantity: %s" % (U._nm(b), norm(v)[:60]), fn_where(fi, r), "%s normalises a %s by a %s" % (acc, U._nm(a), U._nm(b)),
+                                  "%s.%s divides by `%s`, a %s quantity, where the %s total belongs: the normalised value is not a proportion of the tree" % (ci.name, acc, norm(v.right), U._nm(b), U._nm(want)))
+                    else:
+                        got.add(cu.unit(v, env))
+                rep.check(got == {want}, "R14.1", fi.qualname, "%s returns %s" % (acc, sorted(map(U._nm, got))), fn_where(fi), "%s returns a %s from the %s table" % (acc, U._nm(want), U._nm(want)),
+                          "%s.%s returns a %s: it reads the wrong table (path lengths and step counts are kept in separate tables)" % (ci.name, acc, "/".join(sorted(map(U._nm, got)))))
+            # the weighted switch
+            g = index.function(cq + "._get_distance_matrix_and_normalization_factor")
+            flag = g.params[1] if len(g.params) > 1 else None
+            sw = [i for i in g.node.body if isinstance(i, ast.If) and norm(i.test) in (flag, "not " + flag)]
+            if len(sw) != 1:
+                raise AnalysisError("R14.1: %s: weighted/unweighted switch not recognised" % g.qualname)
+            tb, fb = (sw[0].body, sw[0].orelse) if norm(sw[0].test) == flag else (sw[0].orelse, sw[0].body)
+            for branch, want, what in ((tb, U.L, "weighted"), (fb, U.S, "unweighted")):
+                us = set()
+                for n in branch:
+                    for a in ast.walk(n):
+                        if isinstance(a, ast.Assign):
+                            u = cu.unit(a.value, {})
+                            if u is not None:
+                                us.add(u)
+                rep.check(us == {want}, "R14.1", g.qualname, "%s branch selects %s" % (what, sorted(map(U._nm, us))), fn_where(g, branch[0] if branch else g.node), "%s branch selects the %s table and total" % (what, U._nm(want)),
+                          "%s: the %s branch selects %s quantities (table / normalisation factor): weighted distances must come from the length table and be normalised by the tree length, unweighted ones from the step table and the edge count" % (g.qualname, what, "/".join(sorted(map(U._nm, us))) or "no"))
+            d = index.function(cq + ".distance")
+            dflag = [p for p in d.params if "weighted" in p]
+            sw = [i for i in d.node.body if isinstance(i, ast.If) and dflag and norm(i.test) in (dflag[0], "not " + dflag[0])]
+            if len(sw) != 1:
+                raise AnalysisError("R14.1: %s: weighted/unweighted dispatch not recognised" % d.qualname)
+            tb, fb = (sw[0].body, sw[0].orelse) if norm(sw[0].test) == dflag[0] else (sw[0].orelse, sw[0].body)
+            tc = {call_name(c) for s in tb for c in ast.walk(s) if isinstance(c, ast.Call)}
+            fc = {call_name(c) for s in fb for c in ast.walk(s) if isinstance(c, ast.Call)}
+            rep.check("patristic_distance" in tc and "path_edge_count" in fc and "path_edge_count" not in tc and "patristic_distance" not in fc, "R14.1", d.qualname, "dispatch weighted->%s unweighted->%s" % (sorted(tc), sorted(fc)), fn_where(d, sw[0]),
+                      "distance(): weighted -> patristic_distance, unweighted -> path_edge_count", "%s dispatches weighted -> %s and unweighted -> %s" % (d.qualname, sorted(tc), sorted(fc)))
 
     # ---- R14.2
-    parallel_rule(rep, "R14.2", index.function(PDM + ".compile_from_tree"), classes[PDM][1], "_taxon_phylogenetic_distances", "_taxon_phylogenetic_path_steps", 4)
-    parallel_rule(rep, "R14.2", index.function(NDM + ".compile_from_tree"), classes[NDM][1], "_node_phylogenetic_distances", "_node_phylogenetic_path_steps", 8)
+    with rep.section("R14.2"):
+        parallel_rule(rep, "R14.2", index.function(PDM + ".compile_from_tree"), classes[PDM][1], "_taxon_phylogenetic_distances", "_taxon_phylogenetic_path_steps", 4)
+        parallel_rule(rep, "R14.2", index.function(NDM + ".compile_from_tree"), classes[NDM][1], "_node_phylogenetic_distances", "_node_phylogenetic_path_steps", 8)
 
     # ---- R14.3
-    cf = index.function(PDM + ".compile_from_tree")
-    filled = set()
-    for n in walk_no_nested(cf.node):
-        if isinstance(n, ast.Assign):
-            f, subs = _field_of(n.targets[0])
-            if f is not None and len(subs) == 2 and subs[0] != subs[1]:
-                filled.add(f)
-    ml = index.function(PDM + "._mirror_lookups")
-    mirrored = set()
-    for n in walk_no_nested(ml.node):
-        if isinstance(n, ast.For) and isinstance(n.iter, ast.Tuple):
-            # for ddata in (self.a, self.b, ...):  ddata[t2][t1] = ddata[t1][t2]
-            v = norm(n.target)
-            sym = any(isinstance(a, ast.Assign) and isinstance(a.targets[0], ast.Subscript) and isinstance(a.value, ast.Subscript) and _sym_pair(a.targets[0], a.value, v) for a in ast.walk(n))
-            if sym:
-                mirrored |= {e.attr for e in n.iter.elts if isinstance(e, ast.Attribute) and norm(e.value) == "self"}
-        if isinstance(n, ast.Assign):
-            f, subs = _field_of(n.targets[0])
-            if f is not None and len(subs) == 2:
-                rd = [x for x in ast.walk(n.value) if isinstance(x, ast.Subscript) and _field_of(x) == (f, list(reversed(subs)))]
-                if rd:
-                    mirrored.add(f)
-    rep.floor("R14.3", "tables filled pairwise by PhylogeneticDistanceMatrix.compile_from_tree", 4, len(filled))
-    for f in sorted(filled):
-        rep.check(f in mirrored, "R14.3", ml.qualname, "table self.%s is not mirrored" % f, fn_where(ml), "self.%s: filled for (t1, t2) in compile_from_tree, mirrored to (t2, t1) by _mirror_lookups" % f,
-                  "compile_from_tree fills self.%s for each pair (t1, t2) once, but _mirror_lookups does not copy it to (t2, t1): the matrix is not symmetric (a lookup in the other order raises KeyError or answers differently)" % f)
-    for q in (PDM + ".compile_from_tree", PDM + ".compile_from_dict"):
-        f = index.function(q)
-        cfg = cfg_of(f)
-        ok, w = cfg.must_pass(cfg.entry, lambda n: any(call_name(c) == "_mirror_lookups" for c in node_calls(n)))
-        rep.check(ok, "R14.3", f.qualname, "_mirror_lookups on every path", fn_where(f), "%s ends with _mirror_lookups on every normal path" % f.name, "%s can return without calling _mirror_lookups: only one triangle of the matrix is filled" % f.qualname)
-        # nothing is filled after mirroring
-        late = []
-        for n in cfg.nodes:
-            if any(call_name(c) == "_mirror_lookups" for c in node_calls(n)):
-                for m in cfg.reach(cfg.succ_after(n), follow_exc=False):
-                    if m.kind == "stmt" and isinstance(m.ast, ast.Assign) and _field_of(m.ast.targets[0])[0] in filled:
-                        late.append(m)
-        rep.check(not late, "R14.3", f.qualname, "table filled after mirroring", fn_where(f, late[0].stmt if late else None), "%s fills no table after mirroring" % f.name, "%s stores into a pair table after _mirror_lookups has run" % f.qualname)
-    clr = index.function(PDM + ".clear")
-    cleared = {w_.attr for w_ in writes_in(clr.node) if w_.kind == "store" and w_.base is not None and norm(w_.base) == "self"}
-    for f in sorted(filled):
-        rep.check(f in cleared, "R14.3", clr.qualname, "table self.%s not reset by clear()" % f, fn_where(clr), "clear() resets self.%s" % f, "clear() does not reset self.%s: compiling a second tree into the same matrix keeps pairs of the first" % f)
-    # node matrix: mirrored stores in the same block
-    nf = index.function(NDM + ".compile_from_tree")
-    nsym = 0
-    consumed = set()
-    for block in _blocks(nf.node):
-        if id(block) in consumed:
-            continue
-        st2 = []
-        for st in block:
-            flat = isinstance(st, ast.If) and not st.orelse and len(st.body) <= 2 and all(isinstance(x, ast.Assign) for x in st.body)
-            if flat:
-                consumed.add(id(st.body))
-            for a in ([st] if isinstance(st, ast.Assign) else list(st.body) if flat else []):
-                f, subs = _field_of(a.targets[0])
+    with rep.section("R14.3"):
+        cf = index.function(PDM + ".compile_from_tree")
+        filled = set()
+        for n in walk_no_nested(cf.node):
+            if isinstance(n, ast.Assign):
+                f, subs = _field_of(n.targets[0])
                 if f is not None and len(subs) == 2 and subs[0] != subs[1]:
-                    st2.append((f, subs, a))
-        for f, subs, a in st2:
-            nsym += 1
-            mirror = [b for g, s2, b in st2 if g == f and s2 == [subs[1], subs[0]]]
-            ok = bool(mirror) and any(_same_value(a.value, b.value, subs) for b in mirror)
-            rep.check(ok, "R14.3", nf.qualname, "no mirror store for self.%s[%s][%s]" % (f, subs[0], subs[1]), fn_where(nf, a), "self.%s[%s][%s] has its mirror with the same value in the same block" % (f, subs[0], subs[1]),
-                      "NodeDistanceMatrix.compile_from_tree stores self.%s[%s][%s] = %s without storing the same value under [%s][%s] in the same block: the node matrix is not symmetric" % (f, subs[0], subs[1], norm(a.value)[:60], subs[1], subs[0]))
-    rep.floor("R14.3", "pairwise stores in NodeDistanceMatrix.compile_from_tree", 16, nsym)
+                    filled.add(f)
+        ml = index.function(PDM + "._mirror_lookups")
+        mirrored = set()
+        for n in walk_no_nested(ml.node):
+            if isinstance(n, ast.For) and isinstance(n.iter, ast.Tuple):
+                # for ddata in (self.a, self.b, ...):  ddata[t2][t1] = ddata[t1][t2]
+                v = norm(n.target)
+                sym = any(isinstance(a, ast.Assign) and isinstance(a.targets[0], ast.Subscript) and isinstance(a.value, ast.Subscript) and _sym_pair(a.targets[0], a.value, v) for a in ast.walk(n))
+                if sym:
+                    mirrored |= {e.attr for e in n.iter.elts if isinstance(e, ast.Attribute) and norm(e.value) == "self"}
+            if isinstance(n, ast.Assign):
+                f, subs = _field_of(n.targets[0])
+                if f is not None and len(subs) == 2:
+                    rd = [x for x in ast.walk(n.value) if isinstance(x, ast.Subscript) and _field_of(x) == (f, list(reversed(subs)))]
+                    if rd:
+                        mirrored.add(f)
+        rep.floor("R14.3", "tables filled pairwise by PhylogeneticDistanceMatrix.compile_from_tree", 4, len(filled))
+        for f in sorted(filled):
+            rep.check(f in mirrored, "R14.3", ml.qualname, "table self.%s is not mirrored" % f, fn_where(ml), "self.%s: filled for (t1, t2) in compile_from_tree, mirrored to (t2, t1) by _mirror_lookups" % f,
+                      "compile_from_tree fills self.%s for each pair (t1, t2) once, but _mirror_lookups does not copy it to (t2, t1): the matrix is not symmetric (a lookup in the other order raises KeyError or answers differently)" % f)
+        for q in (PDM + ".compile_from_tree", PDM + ".compile_from_dict"):
+            f = index.function(q)
+            cfg = cfg_of(f)
+            ok, w = cfg.must_pass(cfg.entry, lambda n: any(call_name(c) == "_mirror_lookups" for c in node_calls(n)))
+            rep.check(ok, "R14.3", f.qualname, "_mirror_lookups on every path", fn_where(f), "%s ends with _mirror_lookups on every normal path" % f.name, "%s can return without calling _mirror_lookups: only one triangle of the matrix is filled" % f.qualname)
+            # nothing is filled after mirroring
+            late = []
+            for n in cfg.nodes:
+                if any(call_name(c) == "_mirror_lookups" for c in node_calls(n)):
+                    for m in cfg.reach(cfg.succ_after(n), follow_exc=False):
+                        if m.kind == "stmt" and isinstance(m.ast, ast.Assign) and _field_of(m.ast.targets[0])[0] in filled:
+                            late.append(m)
+            rep.check(not late, "R14.3", f.qualname, "table filled after mirroring", fn_where(f, late[0].stmt if late else None), "%s fills no table after mirroring" % f.name, "%s stores into a pair table after _mirror_lookups has run" % f.qualname)
+        clr = index.function(PDM + ".clear")
+        cleared = {w_.attr for w_ in writes_in(clr.node) if w_.kind == "store" and w_.base is not None and norm(w_.base) == "self"}
+        for f in sorted(filled):
+            rep.check(f in cleared, "R14.3", clr.qualname, "table self.%s not reset by clear()" % f, fn_where(clr), "clear() resets self.%s" % f, "clear() does not reset self.%s: compiling a second tree into the same matrix keeps pairs of the first" % f)
+        # node matrix: mirrored stores in the same block
+        nf = index.function(NDM + ".compile_from_tree")
+        nsym = 0
+        consumed = set()
+        for block in _blocks(nf.node):
+            if id(block) in consumed:
+                continue
+            st2 = []
+            for st in block:
+                flat = isinstance(st, ast.If) and not st.orelse and len(st.body) <= 2 and all(isinstance(x, ast.Assign) for x in st.body)
+                if flat:
+                    consumed.add(id(st.body))
+                for a in ([st] if isinstance(st, ast.Assign) else list(st.body) if flat else []):
+                    f, subs = _field_of(a.targets[0])
+                    if f is not None and len(subs) == 2 and subs[0] != subs[1]:
+                        st2.append((f, subs, a))
+            for f, subs, a in st2:
+                nsym += 1
+                mirror = [b for g, s2, b in st2 if g == f and s2 == [subs[1], subs[0]]]
+                ok = bool(mirror) and any(_same_value(a.value, b.value, subs) for b in mirror)
+                rep.check(ok, "R14.3", nf.qualname, "no mirror store for self.%s[%s][%s]" % (f, subs[0], subs[1]), fn_where(nf, a), "self.%s[%s][%s] has its mirror with the same value in the same block" % (f, subs[0], subs[1]),
+                          "NodeDistanceMatrix.compile_from_tree stores self.%s[%s][%s] = %s without storing the same value under [%s][%s] in the same block: the node matrix is not symmetric" % (f, subs[0], subs[1], norm(a.value)[:60], subs[1], subs[0]))
+        rep.floor("R14.3", "pairwise stores in NodeDistanceMatrix.compile_from_tree", 16, nsym)
 
     # ---- R14.4
-    for q, tab in ((PDM + ".compile_from_tree", "_mrca"), (NDM + ".compile_from_tree", "_mrca")):
-        f = index.function(q)
-        outer = [n for n in f.node.body if isinstance(n, ast.For) and "postorder" in norm(n.iter)]
-        if len(outer) != 1 or not isinstance(outer[0].target, ast.Name):
-            raise AnalysisError("R14.4: %s: post-order loop not recognised" % q)
-        nodevar = outer[0].target.id
-        kids = {n.targets[0].id for n in ast.walk(outer[0]) if isinstance(n, ast.Assign) and isinstance(n.targets[0], ast.Name) and isinstance(n.value, ast.Call) and call_name(n.value) == "child_nodes"
-                and norm(n.value.func.value) == nodevar}
-        childvars = set()
-        for n in ast.walk(outer[0]):
-            if isinstance(n, ast.For):
-                it = n.iter
-                src = it.args[0] if isinstance(it, ast.Call) and call_name(it) == "enumerate" and it.args else it
-                while isinstance(src, ast.Subscript):
-                    src = src.value
-                if isinstance(src, ast.Name) and src.id in kids:
-                    t = n.target.elts[-1] if isinstance(n.target, ast.Tuple) else n.target
-                    if isinstance(t, ast.Name):
-                        childvars.add(t.id)
-        nst = 0
-        for n in ast.walk(outer[0]):
-            if isinstance(n, ast.Assign):
-                fld, subs = _field_of(n.targets[0])
-                if fld == tab and len(subs) == 2 and subs[0] != subs[1] and not isinstance(n.value, ast.Dict):
-                    nst += 1
-                    v = norm(n.value)
-                    ok = v == nodevar or any(v == c + ".parent_node" for c in childvars)
-                    rep.check(ok, "R14.4", f.qualname, "MRCA of a pair across children recorded as `%s`" % v, fn_where(f, n), "%s: MRCA[%s][%s] = %s (the node whose children are paired)" % (f.name, subs[0], subs[1], v),
-                              "%s records `%s` as the common ancestor of [%s] and [%s], which descend from two different children of `%s`: the common ancestor of such a pair is `%s` itself" % (f.qualname, v, subs[0], subs[1], nodevar, nodevar))
-        rep.floor("R14.4", "pairwise MRCA stores in %s" % q, 1, nst)
-    tm = index.function(TREE + ".mrca")
-    cfg = cfg_of(tm)
-    enc = [n for n in cfg.nodes if any(call_name(c) in ("encode_bipartitions", "update_bipartitions") for c in node_calls(n))]
-    if not enc:
-        rep.check(False, "R14.4", tm.qualname, "no refresh in Tree.mrca", fn_where(tm), "", "Tree.mrca never re-encodes the bipartitions: with is_bipartitions_updated=False (a refresh requested) it descends by stale leafset bitmasks")
-    for n in enc:
-        # reachable when the caller says the encoding is NOT current: the test `not kwargs.get('is_bipartitions_updated', True)` true edge
-        guards = [t for t in cfg.nodes if t.kind == "test" and "is_bipartitions_updated" in norm(t.ast)]
-        ok = False
-        for t in guards:
-            neg = isinstance(t.ast, ast.UnaryOp) and isinstance(t.ast.op, ast.Not)
-            lab = "t" if neg else "f"
-            ok = ok or any(l == lab and (d is n or cfg.can_reach(d, lambda x: x is n, skip_src=False) is not None) for l, d in t.succ)
-            bad_lab = "f" if neg else "t"
-        rep.check(ok and bool(guards), "R14.4", tm.qualname, "refresh polarity in Tree.mrca", fn_where(tm, n.stmt), "Tree.mrca re-encodes when is_bipartitions_updated is falsy",
-                  "Tree.mrca does not re-encode the bipartitions when the caller passes is_bipartitions_updated=False (the refresh the property allows the caller to request): the descent then follows stale leafset bitmasks after a structural edit")
-    pdq = index.function("dendropy.calculate.treemeasure.patristic_distance")
-    mc = [c for c in calls_in(pdq.node) if call_name(c) == "mrca"]
-    okf = bool(mc) and all(get_kwarg(c, "is_bipartitions_updated") is not None and norm(get_kwarg(c, "is_bipartitions_updated")) == "is_bipartitions_updated" for c in mc)
-    rep.check(okf, "R14.4", pdq.qualname, "is_bipartitions_updated forwarded to tree.mrca", fn_where(pdq), "treemeasure.patristic_distance forwards is_bipartitions_updated to tree.mrca", "treemeasure.patristic_distance does not forward its is_bipartitions_updated argument to tree.mrca: the documented refresh never happens (or always happens)")
-    loops = [n for n in pdq.node.body if isinstance(n, ast.While)]
-    if len(loops) != 2:
-        raise AnalysisError("R14.4: treemeasure.patristic_distance: expected two walk-up loops, found %d" % len(loops))
-    a, b = (ast.dump(l) for l in loops)
-    rep.check(a == b, "R14.4", pdq.qualname, "the two walk-up loops differ", fn_where(pdq, loops[1]), "both taxa are walked up to the MRCA by the same loop", "treemeasure.patristic_distance walks the two taxa up to their common ancestor with different loops (`%s` / `%s`): one side's edge lengths are accumulated differently" % (norm(loops[0].test), norm(loops[1].test)))
+    with rep.section("R14.4"):
+        for q, tab in ((PDM + ".compile_from_tree", "_mrca"), (NDM + ".compile_from_tree", "_mrca")):
+            f = index.function(q)
+            outer = [n for n in f.node.body if isinstance(n, ast.For) and "postorder" in norm(n.iter)]
+            if len(outer) != 1 or not isinstance(outer[0].target, ast.Name):
+                raise AnalysisError("R14.4: %s: post-order loop not recognised" % q)
+            nodevar = outer[0].target.id
+            kids = {n.targets[0].id for n in ast.walk(outer[0]) if isinstance(n, ast.Assign) and isinstance(n.targets[0], ast.Name) and isinstance(n.value, ast.Call) and call_name(n.value) == "child_nodes"
+                    and norm(n.value.func.value) == nodevar}
+            childvars = set()
+            for n in ast.walk(outer[0]):
+                if isinstance(n, ast.For):
+                    it = n.iter
+                    src = it.args[0] if isinstance(it, ast.Call) and call_name(it) == "enumerate" and it.args else it
+                    while isinstance(src, ast.Subscript):
+                        src = src.value
+                    if isinstance(src, ast.Name) and src.id in kids:
+                        t = n.target.elts[-1] if isinstance(n.target, ast.Tuple) else n.target
+                        if isinstance(t, ast.Name):
+                            childvars.add(t.id)
+            nst = 0
+            for n in ast.walk(outer[0]):
+                if isinstance(n, ast.Assign):
+                    fld, subs = _field_of(n.targets[0])
+                    if fld == tab and len(subs) == 2 and subs[0] != subs[1] and not isinstance(n.value, ast.Dict):
+                        nst += 1
+                        v = norm(n.value)
+                        ok = v == nodevar or any(v == c + ".parent_node" for c in childvars)
+                        rep.check(ok, "R14.4", f.qualname, "MRCA of a pair across children recorded as `%s`" % v, fn_where(f, n), "%s: MRCA[%s][%s] = %s (the node whose children are paired)" % (f.name, subs[0], subs[1], v),
+                                  "%s records `%s` as the common ancestor of [%s] and [%s], which descend from two different children of `%s`: the common ancestor of such a pair is `%s` itself" % (f.qualname, v, subs[0], subs[1], nodevar, nodevar))
+            rep.floor("R14.4", "pairwise MRCA stores in %s" % q, 1, nst)
+        tm = index.function(TREE + ".mrca")
+        cfg = cfg_of(tm)
+        enc = [n for n in cfg.nodes if any(call_name(c) in ("encode_bipartitions", "update_bipartitions") for c in node_calls(n))]
+        if not enc:
+            rep.check(False, "R14.4", tm.qualname, "no refresh in Tree.mrca", fn_where(tm), "", "Tree.mrca never re-encodes the bipartitions: with is_bipartitions_updated=False (a refresh requested) it descends by stale leafset bitmasks")
+        for n in enc:
+            # reachable when the caller says the encoding is NOT current: the test `not kwargs.get('is_bipartitions_updated', True)` true edge
+            guards = [t for t in cfg.nodes if t.kind == "test" and "is_bipartitions_updated" in norm(t.ast)]
+            ok = False
+            for t in guards:
+                neg = isinstance(t.ast, ast.UnaryOp) and isinstance(t.ast.op, ast.Not)
+                lab = "t" if neg else "f"
+                ok = ok or any(l == lab and (d is n or cfg.can_reach(d, lambda x: x is n, skip_src=False) is not None) for l, d in t.succ)
+                bad_lab = "f" if neg else "t"
+            rep.check(ok and bool(guards), "R14.4", tm.qualname, "refresh polarity in Tree.mrca", fn_where(tm, n.stmt), "Tree.mrca re-encodes when is_bipartitions_updated is falsy",
+                      "Tree.mrca does not re-encode the bipartitions when the caller passes is_bipartitions_updated=False (the refresh the property allows the caller to request): the descent then follows stale leafset bitmasks after a structural edit")
+        pdq = index.function("dendropy.calculate.treemeasure.patristic_distance")
+        mc = [c for c in calls_in(pdq.node) if call_name(c) == "mrca"]
+        okf = bool(mc) and all(get_kwarg(c, "is_bipartitions_updated") is not None and norm(get_kwarg(c, "is_bipartitions_updated")) == "is_bipartitions_updated" for c in mc)
+        rep.check(okf, "R14.4", pdq.qualname, "is_bipartitions_updated forwarded to tree.mrca", fn_where(pdq), "treemeasure.patristic_distance forwards is_bipartitions_updated to tree.mrca", "treemeasure.patristic_distance does not forward its is_bipartitions_updated argument to tree.mrca: the documented refresh never happens (or always happens)")
+        loops = [n for n in pdq.node.body if isinstance(n, ast.While)]
+        if len(loops) != 2:
+            raise AnalysisError("R14.4: treemeasure.patristic_distance: expected two walk-up loops, found %d" % len(loops))
+        a, b = (ast.dump(l) for l in loops)
+        rep.check(a == b, "R14.4", pdq.qualname, "the two walk-up loops differ", fn_where(pdq, loops[1]), "both taxa are walked up to the MRCA by the same loop", "treemeasure.patristic_distance walks the two taxa up to their common ancestor with different loops (`%s` / `%s`): one side's edge lengths are accumulated differently" % (norm(loops[0].test), norm(loops[1].test)))
 
 
 def _sym_pair(target, value, var):
